@@ -60,6 +60,10 @@ def build(prog, N, compiled):
             g = L[1]()
             circ.take(g)
             objs.append(('gate', g))
+        if compiled == 3:
+            # configuration 3: compile() after EVERY step (compile -> extend -> compile at every split point): a gate
+            # that merges into an already compiled layer must be part of the next compile
+            circ.compile()
     if compiled == 1:
         circ.compile()
     return circ, objs
@@ -145,7 +149,7 @@ def n_meas(prog):
 
 def run_program(prog, N, gs0, ps0, r0, compiled, item, viol, counters):
     kind = 'pure' if r0 == 0 else 'mixed'
-    cfg = {0: 'plain', 1: 'compiled', 2: 'compiled-before-measure'}[int(compiled)]
+    cfg = {0: 'plain', 1: 'compiled', 2: 'compiled-before-measure', 3: 'compiled-after-every-step'}[int(compiled)]
     rho0 = stab.rho_of(gs0, ps0, r0)
     nm = n_meas(prog)
 
@@ -474,6 +478,12 @@ def legs(tier):
     citems = [[2, full_len, pi, 1, 0] for pi in range(len(Pf))] + [[2, full_len, pi, 2, 0] for pi in range(len(Pf)) if Pf[pi][0][0] != 'M'] + [[2, sub_len, pi, 2, -1] for pi in range(len(Ps)) if len(Ps[pi]) == sub_len and Ps[pi][0][0] != 'M'] + [[2, sub_len, pi, 1, -1] for pi in range(len(Ps)) if len(Ps[pi]) == sub_len and tier != 'quick']
     out.append(Leg('programs_N2_compiled', fn_programs, citems, chunk=2, src_states=91, bound='the same programs with Circuit.compile() after construction, and with compile() called on the measurement-free prefix before the first measurement is appended (length<=%d on 91 inputs%s)' % (
         full_len, '' if tier == 'quick' else ', length %d on 13 inputs' % sub_len), timeout=6000))
+    eitems = [[2, full_len, pi, 3, 0] for pi in range(len(Pf)) if len(Pf[pi]) >= 2] + [[2, sub_len, pi, 3, -1] for pi in range(len(Ps)) if len(Ps[pi]) == sub_len]
+    P3e = programs(3, 3)
+    eitems += [[3, 3, pi, 3, 0] for pi in range(len(P3e)) if len(P3e[pi]) >= 2]
+    out.append(Leg('programs_compile_every_step', fn_programs, eitems, chunk=2, src_states=91, exhaustive=False, supplementary=True,
+                   bound='Circuit.compile() called after EVERY take()/measure() (compile -> extend -> compile at every split point, gates merging into already compiled layers before and after measurement layers): '
+                         'N=2 all programs of length 2..%d with a measurement on 91 inputs, all of length %d on 13 rotating inputs; N=3 family all programs of length 2..3 on 7 inputs; complete coin tree, backward on pure inputs' % (full_len, sub_len), timeout=6000))
     l1 = programs(2, 1)
     nblk = (34560 + BLK - 1) // BLK
     out.append(Leg('length1_all_tableaux', fn_programs, [[2, 1, pi, 0, b] for pi in range(len(l1)) for b in range(1, nblk + 1)], chunk=1, src_states=34560,
